@@ -420,7 +420,8 @@ def run_extract(ctx):
 # (lean/BinlogVerif/Lemmas/SrcBridge<Area>.lean over Generated/Src<Area>.lean), and the properties that rest on them
 SRC_BRIDGE = {
     'Queue': ['maximizeWriteCapacity_bridge', 'step_pBegin_model', 'step_pBegin_src', 'beginWrite_bridge', 'writeBuffer_bridge',
-              'endWrite_bridge', 'endRead_bridge', 'beginRead_bridge', 'unreadWriteSize_bridge'],
+              'endWrite_bridge', 'endRead_bridge', 'beginRead_bridge', 'unreadWriteSize_bridge',
+              'beginRead_dataEnd', 'unreadWriteSize_dataEnd', 'maximizeWriteCapacity_dataEnd'],
     'Time': ['printTwoDigits_ok', 'printTwoDigits_digits', 'printTwoDigits_model', 'printTimeZoneOffset_spec',
              'clockToNsSinceEpoch_bridge', 'nsSinceEpochToSeconds_spec', 'nsSinceEpochToSeconds_bridge'],
     'Reader': ['rangeThrowIfOverflow_bridge', 'rangeView_bridge', 'ostreamBufferReserve_bridge', 'ostreamBufferReserve_room',
